@@ -147,3 +147,33 @@ Definition allowed_query_writes : list (string * string * list string) := [
   ("ConvexPolyhedron", "face_centroids", ["_simplex_areas"; "_face_centroids"]);
   ("ConvexPolyhedron", "_find_face_centroids", ["_simplex_areas"; "_face_centroids"])
 ].
+
+(* ---------- C16: purity of queries, decided on the generated effects ---------- *)
+Definition memo_attrs : list string := ["_simplex_areas"; "_face_centroids"].
+(* queries that move the shape and move it back: they may write exactly these *)
+Definition movers : list (string * string * list string) := [
+  ("Polygon", "inertia_tensor", ["_vertices"; "_normal"]);
+  ("Sphere", "to_hoomd", ["_centroid"]); ("Ellipsoid", "to_hoomd", ["_centroid"]);
+  ("Polygon", "to_hoomd", ["_vertices"]); ("Polyhedron", "to_hoomd", ["_vertices"; "_equations"]);
+  ("ConvexSpheropolygon", "to_hoomd", ["_polygon.centroid"]);
+  ("ConvexSpheropolyhedron", "to_hoomd", ["_polyhedron.centroid"])
+].
+Definition allowed_writes (c m : string) : list string :=
+  memo_attrs ++ match find (fun r => String.eqb (fst (fst r)) c && String.eqb (snd (fst r)) m) movers with
+                | Some r => snd r | None => [] end.
+Definition query_methods : list string :=
+  ["is_inside"; "compute_form_factor_amplitude"; "distance_to_surface"; "_distance_to_surface_from"; "get_face_area";
+   "get_dihedral"; "to_json"; "to_hoomd"; "__repr__"; "__str__"; "save"; "_get_face_intersections"; "_point_plane_distances";
+   "_surface_triangulation"; "_triangulation"; "_compute_inertia_tensor"; "_find_triangle_array_area";
+   "_get_outward_unit_normal"].
+Definition is_query_row (r : string * string * string * list string) : bool :=
+  let kind := snd (fst (fst r)) in let m := snd (fst r) in
+  String.eqb kind "getter" || String.eqb kind "cached"
+  || (String.eqb kind "method" && existsb (String.eqb m) query_methods).
+Definition query_pure (r : string * string * string * list string) : bool :=
+  let c := fst (fst (fst r)) in let kind := snd (fst (fst r)) in let m := snd (fst r) in
+  subset (write_set c kind m) (allowed_writes c m).
+Definition all_queries_pure : bool := forallb (fun r => negb (is_query_row r) || query_pure r) gen_effects.
+(* no method at all writes in place into an array passed by the caller *)
+Definition no_argument_writes : bool :=
+  forallb (fun r => forallb (fun e => negb (String.eqb (tag e) "A:")) (snd r)) gen_effects.
